@@ -127,60 +127,71 @@ Definition response_mode (p : params) : string :=
   else if seqb (p_resp_mode p) "jwt" then (if rt_is_implicit (p_resp_type p) then "fragment.jwt" else "query.jwt")
   else p_resp_mode p.
 
-Definition nav_err (p : params) (e : ecode) : out :=
-  ONav (response_mode p) (p_redirect p) (mkNav 0 0 false (p_state p) (Some e) false).
+(* redirectResponse: how the parameters travel — fragment, form_post, or (everything else) query —
+   and whether they are wrapped in a signed response object *)
+Definition nav_mode (cfg : config) (c : client) (p : params) : string :=
+  let m := response_mode p in
+  let base := if orb (seqb m "fragment") (seqb m "fragment.jwt") then "fragment"
+              else if orb (seqb m "form_post") (seqb m "form_post.jwt") then "form_post" else "query" in
+  if orb (andb (rm_is_jarm m) (cf_jarm_enabled cfg)) (c_jarm_alg c) then base ++ ".jwt" else base.
+
+Definition nav_err (cfg : config) (c : client) (p : params) (e : ecode) : out :=
+  ONav (nav_mode cfg c p) (p_redirect p) (mkNav 0 0 false (p_state p) (Some e) false).
 
 (* redirectError: only redirection errors navigate *)
-Definition render_aerr (e : aerr) : out :=
-  match e with ALocal c => OErr c | ARedirect c p => nav_err p c end.
+Definition render_aerr (cfg : config) (c : client) (e : aerr) : out :=
+  match e with ALocal x => OErr x | ARedirect x p => nav_err cfg c p x end.
 
 Definition new_session (n : nat) (c : client) (p : params) : asession :=
   mkASession (mint n KSessId) (c_id c) "" 0 0 0 0 "" 0 0 0%Z 0 "" p.
 
+(* what authenticate hands back: a finished response, or an error still to be rendered by the
+   caller with the client it holds *)
+Inductive ares := ADone (o : out) | AFail (e : aerr).
+
 (* authenticate + the three tails *)
-Definition authenticate (w : world) (n : nat) (now : Z) (s : asession) (pol : pol_reply) : prog out :=
+Definition authenticate (w : world) (n : nat) (now : Z) (s : asession) (pol : pol_reply) : prog ares :=
   let cfg := w_cfg w in
   match pol with
   | PolInProgress =>
       let s' := s <| a_steps := (a_steps s + 1)%N |> in
       Touch (OA s')
-      (* ctx.SaveAuthnSession: exactly one index must be set *)
-      (save_a s' (fun r => match r with RFail => Ret (OErr EInternalError) | _ => Ret (OPage (a_cb s')) end))
+      (save_a s' (fun r => match r with RFail => Ret (AFail (ALocal EInternalError)) | _ => Ret (ADone (OPage (a_cb s'))) end))
   | PolFail | PolFailWith _ =>
       let code := match pol with PolFailWith e => e | _ => EAccessDenied end in
       Do (ADel (a_id s)) (fun r =>
         match r with
-        | RFail => Ret (nav_err (a_params s) EInternalError)
-        | _ => Ret (nav_err (a_params s) code)
+        | RFail => Ret (AFail (ARedirect EInternalError (a_params s)))
+        | _ => Ret (AFail (ARedirect code (a_params s)))
         end)
   | PolSuccess sub granted =>
       let s1 := s <| a_subject := sub |> <| a_granted := granted |> in
       Touch (OA s1)
       (bind (get_client w (a_client s1)) (fun oc =>
        match oc with
-       | None => Ret (nav_err (a_params s1) EInternalError)
+       | None => Ret (AFail (ARedirect EInternalError (a_params s1)))
        | Some c =>
          let rt := p_resp_type (a_params s1) in
-         let after_session (s2 : asession) : prog out :=
-           let finish (at_ : id) (dp : bool) : prog out :=
-             Ret (ONav (response_mode (a_params s2)) (p_redirect (a_params s2))
+         let after_session (s2 : asession) : prog ares :=
+           let finish (at_ : id) (dp : bool) : prog ares :=
+             Ret (ADone (ONav (nav_mode cfg c (a_params s2)) (p_redirect (a_params s2))
                     (mkNav (a_code s2) at_
                        (andb (contains_openid (a_granted s2)) (rt_contains rt "id_token"))
-                       (p_state (a_params s2)) None dp)) in
+                       (p_state (a_params s2)) None dp))) in
            if rt_contains rt "token" then
              let '(tv, tid) := make_token n c GImplicit in
              let jkt := if cf_dpop_enabled cfg
                         then (if is_nil (a_jkt s2) then p_dpop_jkt (a_params s2) else a_jkt s2) else 0%N in
              let g := new_grant n now cfg tid GImplicit (a_subject s2) (a_client s2)
                         (a_granted s2) (a_granted s2) jkt 0 in
-             Do (GSave g) (fun r => match r with RFail => Ret (OErr EInternalError) | _ => finish tv (negb (is_nil jkt)) end)
+             Do (GSave g) (fun r => match r with RFail => Ret (AFail (ALocal EInternalError)) | _ => finish tv (negb (is_nil jkt)) end)
            else finish 0%N false in
          if negb (rt_contains rt "code") then
-           Do (ADel (a_id s1)) (fun r => match r with RFail => Ret (OErr EInternalError) | _ => after_session s1 end)
+           Do (ADel (a_id s1)) (fun r => match r with RFail => Ret (AFail (ALocal EInternalError)) | _ => after_session s1 end)
          else
            let s2 := s1 <| a_code := mint n KCode |> <| a_expires := (now + 60)%Z |> <| a_cb := 0%N |> in
            Touch (OA s2)
-           (save_a s2 (fun r => match r with RFail => Ret (OErr EInternalError) | _ => after_session s2 end))
+           (save_a s2 (fun r => match r with RFail => Ret (AFail (ALocal EInternalError)) | _ => after_session s2 end))
        end))
   end.
 
@@ -188,11 +199,21 @@ Definition should_use_par (cfg : config) (p : params) (c : client) : bool :=
   andb (cf_par_enabled cfg) (orb (cf_par_required cfg) (orb (c_par_required c) (negb (is_nil (p_request_uri p))))).
 
 (* initAuthnSession's writes, then authenticate *)
-Definition start_session (w : world) (n : nat) (now : Z) (s : asession) (r : areq) : prog out :=
-  if negb (ar_policy_available r) then Ret (nav_err (a_params s) EInvalidRequest) else
+Definition start_session (w : world) (n : nat) (now : Z) (c : client) (s : asession) (r : areq) : prog ares :=
+  let cfg := w_cfg w in
+  (* tokens issued by the authorization endpoint can only be bound with DPoP (PAR key or dpop_jkt):
+     if binding is required and the token would not be bound, refuse (fix D16) *)
+  if andb (rt_contains (p_resp_type (a_params s)) "token")
+      (andb (orb (cf_dpop_required cfg) (orb (andb (cf_dpop_enabled cfg) (c_dpop_required c)) (cf_binding_required cfg)))
+            (negb (andb (cf_dpop_enabled cfg) (orb (negb (is_nil (a_jkt s))) (negb (is_nil (p_dpop_jkt (a_params s))))))))
+  then Ret (AFail (ARedirect EInvalidRequest (a_params s))) else
+  if negb (ar_policy_available r) then Ret (AFail (ARedirect EInvalidRequest (a_params s))) else
   let s' := s <| a_nonce_claim := p_nonce (a_params s) |> <| a_cb := mint n KCallback |>
               <| a_par := 0%N |> <| a_expires := (now + cf_session_timeout (w_cfg w))%Z |> in
   Touch (OA s') (authenticate w n now s' (ar_pol r)).
+
+Definition finish_ares (cfg : config) (c : client) (a : ares) : out :=
+  match a with ADone o => o | AFail e => render_aerr cfg c e end.
 
 Definition init_auth (w : world) (n : nat) (now : Z) (r : areq) : prog out :=
   let cfg := w_cfg w in
@@ -213,18 +234,19 @@ Definition init_auth (w : world) (n : nat) (now : Z) (r : areq) : prog out :=
           if geb now (a_expires s) then Some (ALocal EInvalidRequest) else
           validate_in_out cfg (a_params s) (ar_params r) (client_for_par cfg c (p_redirect (a_params s))) in
         match verdict with
-        | Some e => Do (ADel (a_id s)) (fun rd => match rd with RFail => Ret (OErr EInternalError) | _ => Ret (render_aerr e) end)
+        | Some e => Do (ADel (a_id s)) (fun rd => match rd with RFail => Ret (OErr EInternalError) | _ => Ret (render_aerr cfg c e) end)
         | None =>
           let s' := if is_fapi (cf_profile cfg) then s
                     else s <| a_params := merge_params (a_params s) (ar_params r) |> in
-          start_session w n now s' r
+          bind (start_session w n now c s' r) (fun a => Ret (finish_ares cfg c a))
         end
       | _ => Ret (OErr EInvalidRequest)
       end)
     else
       match validate_params cfg (ar_params r) c with
-      | Some e => Ret (render_aerr e)
-      | None => start_session w n now (new_session n c (ar_params r <| p_request_uri := 0%N |>)) r
+      | Some e => Ret (render_aerr cfg c e)
+      | None => bind (start_session w n now c (new_session n c (ar_params r <| p_request_uri := 0%N |>)) r)
+                     (fun a => Ret (finish_ares cfg c a))
       end
   end).
 
@@ -235,7 +257,16 @@ Definition continue_auth (w : world) (n : nat) (now : Z) (r : cbreq) : prog out 
   match rp with
   | RASess s =>
     if geb now (a_expires s) then Ret (OErr EInvalidRequest) else
-    authenticate w n now s (cb_pol r)
+    bind (authenticate w n now s (cb_pol r)) (fun a =>
+      match a with
+      | ADone o => Ret o
+      | AFail e =>
+          bind (get_client w (a_client s)) (fun oc =>
+            match oc with
+            | None => Ret (OErr EInvalidRequest)
+            | Some c => Ret (render_aerr (w_cfg w) c e)
+            end)
+      end)
   | _ => Ret (OErr EInvalidRequest)
   end).
 
